@@ -664,17 +664,29 @@ func runCleanupAll(c *core.Ctx) {
 		ranges = true
 		v := an.ObjOf(info, rs.Value)
 		var cerr types.Object
+		isClose := func(x ast.Expr) bool {
+			call, ok := an.Unparen(x).(*ast.CallExpr)
+			if !ok {
+				return false
+			}
+			name, recv, ok := lifecycleCall(info, call, iface)
+			return ok && name == "Close" && an.ObjOf(info, recv) == v
+		}
 		ast.Inspect(rs.Body, func(m ast.Node) bool {
 			if as, ok := m.(*ast.AssignStmt); ok && len(as.Rhs) == 1 {
+				if isClose(as.Rhs[0]) {
+					closes = true
+					cerr = an.ObjOf(info, as.Lhs[0])
+				}
 				if call, ok := an.Unparen(as.Rhs[0]).(*ast.CallExpr); ok {
-					if name, recv, ok := lifecycleCall(info, call, iface); ok && name == "Close" && an.ObjOf(info, recv) == v {
-						closes = true
-						cerr = an.ObjOf(info, as.Lhs[0])
-					}
 					if f := an.CalleeFunc(info, call); f != nil && f.Name() == "Append" && f.Pkg() != nil && f.Pkg().Path() == "go.uber.org/multierr" {
 						for _, a := range call.Args {
 							if cerr != nil && an.ObjOf(info, a) == cerr {
 								merged = true
+							}
+							// multierr.Append(err, res.Close()): the error is merged where it is produced
+							if isClose(a) {
+								closes, merged = true, true
 							}
 						}
 					}
